@@ -15,17 +15,27 @@ TRUSTED = [
     'Mathlib v4.33 (interval integrals, ring, field_simp, nlinarith)',
     'hand-written model lean/CompmechVerif/Model/Laminate.lean of read_laminaprop, Lamina.rebuild (QL), '
     'read_stack, Laminate.calc_constitutive_matrix - tied to the running Python only by this correspondence check',
+    'hand-written model lean/CompmechVerif/Model/LaminationParams.lean of MatLamina.rebuild (c, q, invariants u), the Laminate OBJECT '
+    '(calc_constitutive_matrix with its numpy views, calc_lamination_parameters, calc_ABDE_from_lamination_parameters, '
+    'read_lamination_parameters, force_balanced_LP, force_symmetric_LP, force_orthotropic, force_symmetric, calc_equivalent_modulus) '
+    '- tied to the running Python by the call-sequence correspondence of this check (one object, every reported attribute after every call)',
+    'np.linalg.inv (a parameter of the model of calc_equivalent_modulus; the driver substitutes exact Gauss-Jordan elimination over Q)',
     'numpy deg2rad/cos/sin (the model receives the float cos/sin as exact rationals)',
     'IEEE rounding is not modelled: outputs compared to 1e-9 of the block scale',
 ]
 ASSUMPTIONS = [
-    'MatLamina.rebuild (3-D c_ij and invariants u) is not modelled: it does not feed ABD/ABDE',
-    'lamination-parameter route (read_lamination_parameters) is outside C01 as stated',
+    'the ply attributes cos2t/sin2t/cos4t/sin4t that calc_lamination_parameters reads are never set by the package (known finding); '
+    'the sequences that exercise the rest of that method set them from numpy cos/sin of the doubled angles',
+    'materials with e1 = 0, e2 = 0 or a vanishing 3-D determinant (ZeroDivisionError inside read_laminaprop) are not generated',
 ]
 RULE = ('stacks generated from one PRNG (VERIF_SEED): 1-12 plies, angles from {0,+-45,90,30,-60} or random reals, '
         'random/dyadic thicknesses, 3/6/9-entry material tuples, offsets of both signs, uniform and per-ply '
         'argument forms, plus a malformed stream; non-trivial = valid stack with >=2 plies, at least one '
-        'angle that is not a multiple of 90 and a non-zero offset or unsymmetric stacking; distinct by input text')
+        'angle that is not a multiple of 90 and a non-zero offset or unsymmetric stacking; distinct by input text.  '
+        'Object stream: one Laminate (fresh / read_stack with one or several materials, zero and non-zero offset / '
+        'read_lamination_parameters) and 2-9 method calls or attribute assignments on it (calc_*, force_*, offset, matobj, '
+        'xi*, ply trig attributes); every reported attribute is compared with the model after every call (1e-12 of the block scale), '
+        'exception classes exactly')
 
 ORDER = ['q11', 'q12', 'q22', 'q16', 'q26', 'q66', 'q44', 'q45', 'q55']
 IDX5 = {'q11': (0, 0), 'q12': (0, 1), 'q22': (1, 1), 'q16': (0, 2), 'q26': (1, 2), 'q66': (2, 2),
@@ -345,6 +355,8 @@ def correspondence(ctx):
             ctx.violation('C01 fails on the implementation: ' + o, dict(case=c, history=hist))
             return
     ctx.cov['input_distribution'] = dist
+    if not object_stream(ctx):
+        return
     ctx.cov['traces_validated_against_impl'] = ctx.evaluations
 
 
@@ -358,10 +370,32 @@ def search(ctx, reason):
         if o:
             ctx.violation('C01 fails on the implementation: ' + o + ' [after: %s]' % '; '.join(reason)[:300], dict(case=c))
             return True
+    for k in range(ctx.scale(60, 600)):          # the lamination-parameter route, judged by the property itself
+        ctx.evaluations += 1
+        for ident, text, rp in lp_route_checks(rng):
+            if ctx.violation('C01 fails on the implementation: ' + text + ' [after: %s]' % '; '.join(reason)[:300], rp, identity=ident):
+                return True
     return False
 
 
 def replay(ctx, data):
+    if data['replay'].get('sequence'):
+        sq = data['replay']['sequence']
+        rep = driver([seq_line(sq)])[0]
+        bad = compare_seq(sq, rep)
+        print('object model-vs-impl:', bad)
+        return 1 if bad else 0
+    if data['replay'].get('laminaprop') and not data['replay'].get('case'):
+        bad = compare_mat(data['replay']['laminaprop'], driver([mat_line(data['replay']['laminaprop'])])[0])
+        print('MatLamina.rebuild model-vs-impl:', bad)
+        return 1 if bad else 0
+    if data['replay'].get('lp_route'):
+        print('the lamination-parameter predicates are re-drawn from the seed; recorded case:', data['replay']['lp_route'])
+        res = [r for _ in range(40) for r in lp_route_checks(ctx.rng)]
+        unknown = [t for i, t, _ in res if i is None]
+        for t in unknown[:3]:
+            print('  ', t)
+        return 1 if unknown else 0
     c = data['replay'].get('case')
     if not c:
         print('replay names a broken obligation, no input:', data['what'])
@@ -375,3 +409,502 @@ def replay(ctx, data):
     bad = compare(c, rep)
     print('oracle:', o, '| model-vs-impl:', bad)
     return 1 if (o or bad) else 0
+
+
+# ============================================================================= the Laminate OBJECT: lamination parameters, force_*, moduli
+# One object, a constructor and a sequence of method calls / attribute assignments; after EVERY stage every reported
+# attribute of the real object is compared with the model (Model/LaminationParams.lean), exception classes exactly.
+SEQ_FIELDS = ['xiA', 'xiB', 'xiD', 'xiE', 'A', 'B', 'D', 'E', 'ABD', 'ABDE', 'A_general', 'B_general', 'D_general']
+SCALARS = ['t', 'e1', 'e2', 'g12', 'nu12', 'nu21']
+METHODS = {'cc': 'calc_constitutive_matrix', 'rebuild': 'rebuild', 'clp': 'calc_lamination_parameters',
+           'abde': 'calc_ABDE_from_lamination_parameters', 'fbal': 'force_balanced_LP', 'fsymlp': 'force_symmetric_LP',
+           'forth': 'force_orthotropic', 'fsym': 'force_symmetric', 'eqmod': 'calc_equivalent_modulus'}
+REL = 1e-12
+
+
+def trig_of(theta):
+    t = np.deg2rad(float(theta))
+    return [float(np.cos(2 * t)), float(np.sin(2 * t)), float(np.cos(4 * t)), float(np.sin(4 * t))]
+
+
+def gen_planar_prop(rng):
+    """nine entries with nu13 = nu23 = 0: the 3-D stiffnesses of MatLamina.rebuild reduce to the plane-stress ones"""
+    p = list(gen_prop(rng, 9))
+    p[7] = 0.
+    p[8] = 0.
+    return tuple(p)
+
+
+def stack_thicknesses(case):
+    n = len(case['stack'])
+    return list(case['plyts']) if case['plyts'] else [case['plyt']] * n
+
+
+def xis_of_stack(angles, ts, offset=0.):
+    """the sixteen lamination parameters of a stack by their definition (z from the mid-plane), computed here"""
+    T = float(sum(ts))
+    z = -T / 2. + offset
+    out = np.zeros((4, 4))
+    for a, t in zip(angles, ts):
+        z0, z1 = z, z + t
+        f = np.array(trig_of(a))
+        out[0] += (t / T) * f
+        out[1] += (2. / T ** 2) * (z1 ** 2 - z0 ** 2) * f
+        out[2] += (4. / T ** 3) * (z1 ** 3 - z0 ** 3) * f
+        out[3] += (t / T) * f
+        z = z1
+    return [float(v) for v in out.ravel()]
+
+
+def gen_seq(rng):
+    r = rng.random()
+
+    def body(pool, lo, hi, T):
+        out = []
+        for _ in range(rng.randint(lo, hi)):
+            o = rng.choice(pool)
+            if o == 'offset0':
+                out.append(['offset', 0.])
+            elif o == 'offsetd':
+                out.append(['offset', rng.choice([-1, 1]) * rng.uniform(0.05, 1.5) * T])
+            elif o == 'xi':
+                out.append([rng.choice(['xiA', 'xiB', 'xiD', 'xiE']),
+                            [rng.choice([0., 1., rng.uniform(-1, 1)]) for _ in range(5)]])
+            elif o == 't':
+                out.append(['t', T * rng.choice([1., 2., rng.uniform(0.5, 2)])])
+            else:
+                out.append([o])
+        return out
+
+    if r < 0.06:
+        ctor = dict(kind='fresh')
+        steps = body(list(METHODS), 1, 4, 1.)
+        if rng.random() < 0.5:
+            steps.insert(rng.randint(0, len(steps)), ['matobj', list(gen_prop(rng))])
+    elif r < 0.72:
+        while True:
+            case = gen_case(rng)
+            if 'malformed' not in case:
+                break
+        if rng.random() < 0.6:          # one material; half of them with nu13 = nu23 = 0
+            case['laminaprop'] = gen_planar_prop(rng) if rng.random() < 0.5 else gen_prop(rng)
+            case['laminaprops'] = []
+        T = float(sum(stack_thicknesses(case)))
+        case['offset'] = 0. if rng.random() < 0.5 else rng.choice([-1, 1]) * rng.uniform(0.05, 1.5) * T
+        ctor = dict(kind='stack', case=case)
+        mat = case['laminaprop'] if case['laminaprop'] is not None else rng.choice(case['laminaprops'])
+        pre = []
+        if rng.random() < 0.8:
+            pre.append(['matobj', list(mat)])
+        if rng.random() < 0.8:
+            pre.append(['trig', [trig_of(a) for a in case['stack']]])
+        rng.shuffle(pre)
+        b = body(['clp', 'abde', 'clp', 'abde', 'fbal', 'fsymlp', 'forth', 'forth', 'fsym', 'eqmod', 'cc', 'rebuild',
+                  'offset0', 'offset0', 'offsetd', 'xi'], 2, 7, T)
+        if len(pre) == 2 and rng.random() < 0.7:      # the round trip proper, then whatever follows
+            pre = pre + [['clp']] + ([['abde']] if rng.random() < 0.7 else [])
+        steps = pre + b if rng.random() < 0.8 else b[:1] + pre + b[1:]
+    else:
+        T = rng.choice([1., 0.25, 1e-3, rng.uniform(0.1, 3)])
+        prop = gen_planar_prop(rng) if rng.random() < 0.4 else gen_prop(rng)
+        if rng.random() < 0.6:
+            n = rng.randint(1, 6)
+            angs = [rng.choice([0, 45, -45, 90, 30, rng.uniform(-90, 90)]) for _ in range(n)]
+            xis = xis_of_stack(angs, [T / n] * n)
+        else:
+            xis = [rng.choice([0., rng.uniform(-1, 1)]) for _ in range(16)]
+        ctor = dict(kind='lp', thickness=T, laminaprop=list(prop), xis=xis)
+        steps = body(['abde', 'fbal', 'fbal', 'fsymlp', 'fsymlp', 'forth', 'forth', 'fsym', 'fsym', 'eqmod', 'eqmod', 'xi', 'xi',
+                      'clp', 'cc', 'offsetd', 'offset0', 't'], 2, 7, T)
+    return dict(ctor=ctor, steps=steps)
+
+
+def seq_line(sq):
+    c = sq['ctor']
+    if c['kind'] == 'fresh':
+        head = 'fresh'
+    elif c['kind'] == 'stack':
+        head = 'stack ' + case_line(c['case'])[len('C01 stack '):]
+    else:
+        head = 'lp %s | %s | %s' % (q(c['thickness']), ' '.join(q(v) for v in c['laminaprop']), ' '.join(q(v) for v in c['xis']))
+    parts = [head]
+    for st in sq['steps']:
+        op = st[0]
+        if len(st) == 1:
+            parts.append(op)
+        elif op in ('offset', 't'):
+            parts.append('%s %s' % (op, q(st[1])))
+        elif op == 'trig':
+            parts.append('trig ' + ' ; '.join(' '.join(q(v) for v in g) for g in st[1]))
+        else:
+            parts.append(op + ' ' + ' '.join(q(v) for v in st[1]))
+    return 'C01 lam ' + ' # '.join(parts)
+
+
+def snap_impl(lam, exc):
+    d = dict(status='ok' if exc is None else 'err ' + type(exc).__name__)
+    for name in SCALARS:
+        v = getattr(lam, name, None)
+        d[name] = None if v is None else float(v)
+    for name in SEQ_FIELDS:
+        v = getattr(lam, name, None)
+        d[name] = None if v is None else np.array(v, dtype=float)     # a copy: several attributes are views
+    return d
+
+
+def apply_step(lam, st):
+    from compmech.composite.matlamina import read_laminaprop
+    op = st[0]
+    if op in METHODS:
+        getattr(lam, METHODS[op])()
+    elif op == 'offset':
+        lam.offset = st[1]
+    elif op == 't':
+        lam.t = st[1]
+    elif op == 'matobj':
+        lam.matobj = read_laminaprop(tuple(st[1]))
+    elif op == 'trig':
+        for ply, g in zip(lam.plies, st[1]):
+            ply.cos2t, ply.sin2t, ply.cos4t, ply.sin4t = g
+    elif op in ('xiA', 'xiB', 'xiD', 'xiE'):
+        setattr(lam, op, np.array(st[1], dtype=float))
+    else:
+        raise KeyError(op)
+
+
+def run_seq_impl(sq):
+    """the real object; returns (list of snapshots, lam) or ('ctor-err <kind>', None)"""
+    import warnings
+    from compmech.composite import laminate as _lm
+    c = sq['ctor']
+    snaps = []
+    with warnings.catch_warnings(), np.errstate(all='ignore'), contextlib.redirect_stdout(io.StringIO()):
+        warnings.simplefilter('ignore')
+        try:
+            if c['kind'] == 'fresh':
+                lam = _lm.Laminate()
+            elif c['kind'] == 'stack':
+                kind, lam = run_impl(dict(c['case']))
+                if kind == 'err':
+                    return 'ctor-err ' + lam, None
+            else:
+                lam = _lm.read_lamination_parameters(c['thickness'], tuple(c['laminaprop']), *c['xis'])
+        except Exception as e:
+            return 'ctor-err ' + type(e).__name__, None
+        snaps.append(snap_impl(lam, None))
+        for st in sq['steps']:
+            exc = None
+            try:
+                apply_step(lam, st)
+            except Exception as e:
+                exc = e
+            snaps.append(snap_impl(lam, exc))
+    return snaps, lam
+
+
+def parse_seq_reply(rep):
+    if rep.startswith('err'):
+        return rep
+    out = []
+    for part in rep.split(' # '):
+        f = [x.strip() for x in part.split(' ; ')]
+        d = dict(status=f[0])
+        d['t'] = None if f[1] == '-' else unq(f[1])
+        e = f[2].split()
+        for k, name in enumerate(SCALARS[1:]):
+            d[name] = None if e[k] == '-' else unq(e[k])
+        for k, name in enumerate(SEQ_FIELDS):
+            v = f[3 + k]
+            d[name] = None if v == '-' else [unq(x) for x in v.split()]
+        out.append(d)
+    return out
+
+
+def seq_scales(sq, model):
+    """stiffness scale, thickness scale and the largest |z| the object ever had"""
+    from compmech.composite.matlamina import read_laminaprop
+    c = sq['ctor']
+    Qs, T, off = 0., 0., 0.
+    props = []
+    if c['kind'] == 'stack':
+        cs = c['case']
+        props += [cs['laminaprop']] if cs['laminaprop'] is not None else list(cs['laminaprops'])
+        T = float(sum(abs(x) for x in stack_thicknesses(cs)))
+        off = abs(cs['offset'])
+    elif c['kind'] == 'lp':
+        props.append(c['laminaprop'])
+        T = abs(c['thickness'])
+    for st in sq['steps']:
+        if st[0] == 'matobj':
+            props.append(st[1])
+        elif st[0] == 'offset':
+            off = max(off, abs(st[1]))
+        elif st[0] == 't':
+            T = max(T, abs(st[1]))
+    for p in props:
+        m = read_laminaprop(tuple(p))
+        Qs = max(Qs, float(np.abs(m.u).max()), float(m.e1) / (1 - m.nu12 * m.nu21))
+    for d in model if isinstance(model, list) else []:
+        if d['t'] is not None:
+            T = max(T, abs(float(d['t'])))
+    return Qs, T, T / 2. + off
+
+
+def cmp_block(name, got, want, scale, rel=REL):
+    """got: ndarray (impl), want: list of Fraction (model), same C order"""
+    g = np.asarray(got, dtype=float).ravel()
+    if len(g) != len(want):
+        return '%s: shape %r, the model has %d entries' % (name, np.shape(got), len(want))
+    tol = Fraction(rel) * Fraction(scale) + Fraction(1, 10 ** 300)
+    for k, (x, y) in enumerate(zip(g, want)):
+        if not math.isfinite(x):
+            return '%s[%d] is %r' % (name, k, x)
+        if abs(Fraction(x) - y) > tol:
+            return '%s (flat index %d): impl %r model %r (tolerance %.3e)' % (name, k, x, float(y), float(tol))
+    return None
+
+
+def sub(flat, n, rows, cols):
+    return [flat[i * n + j] for i in rows for j in cols]
+
+
+def compare_seq(sq, reply):
+    """None if the real object and the model agree after every stage, else (stage, description)"""
+    got = run_seq_impl(sq)
+    model = parse_seq_reply(reply)
+    if isinstance(model, str):
+        if got[1] is None:
+            want = {'err badLaminaprop': 'ctor-err IndexError', 'err noThickness': 'ctor-err ValueError',
+                    'err noLaminaprop': 'ctor-err ValueError'}
+            return None if want.get(model) == got[0] else (0, 'constructor: impl %s, model %s' % (got[0], model))
+        return 0, 'constructor: model says %s, the implementation returned an object' % model
+    if got[1] is None:
+        return 0, 'constructor: implementation raised %s, the model returned an object' % got[0]
+    snaps = got[0]
+    if len(snaps) != len(model):
+        return 0, 'stage count %d vs %d' % (len(snaps), len(model))
+    Qs, T, L = seq_scales(sq, model)
+    mx = lambda v: max([abs(float(x)) for x in v] + [0.])
+    names = ['constructor'] + [' '.join([st[0]] + ([] if len(st) == 1 else ['…'])) for st in sq['steps']]
+    for k, (g, m) in enumerate(zip(snaps, model)):
+        where = 'after stage %d (%s): ' % (k, names[k])
+        if g['status'] != m['status']:
+            return k, where + 'implementation %s, model %s' % (g['status'], m['status'])
+        for name in SCALARS + SEQ_FIELDS:
+            if (g[name] is None) != (m[name] is None):
+                return k, where + '%s is %s on the object, %s in the model' % (
+                    name, 'None' if g[name] is None else 'set', 'None' if m[name] is None else 'set')
+        if m['t'] is not None and abs(Fraction(g['t']) - m['t']) > Fraction(REL) * abs(m['t']):
+            return k, where + 't: impl %r model %r' % (g['t'], float(m['t']))
+        for name in SCALARS[1:]:
+            # a model value that is exactly 0 is a division by an exact zero (x/0 = 0 in the model; the implementation divides by rounding
+            # noise, e.g. AI[0,0] of [[A, B], [B, 0]]): no margin, not judged
+            if m[name] is not None and m[name] != 0 and math.isfinite(g[name]):
+                if abs(Fraction(g[name]) - m[name]) > Fraction(1e-9) * abs(m[name]) + Fraction(1, 10 ** 300):
+                    return k, where + '%s: impl %r model %r' % (name, g[name], float(m[name]))
+        for name in ('xiA', 'xiB', 'xiD', 'xiE'):
+            if m[name] is not None:
+                bad = cmp_block(name, g[name], m[name], max(1., mx(m[name])) * max(1., L / max(T, 1e-300)))
+                if bad:
+                    return k, where + bad
+        # floors of the block scales: the rounding of u.xi (isotropic material: u2 = u3 = 0 only up to rounding), of h_k^2 - h_{k-1}^2, h_k^3 - h_{k-1}^3
+        fl = {'A': Qs * T, 'E': Qs * T, 'B': Qs * L ** 2, 'D': Qs * L ** 3}
+        for name in 'ABD':
+            if m[name] is not None:
+                bad = cmp_block(name, g[name], m[name], max(mx(m[name]), fl[name]))
+                if bad:
+                    return k, where + bad
+        if m['E'] is not None:
+            bad = cmp_block('E', g['E'], m['E'], max(mx(m['E']), fl['E']))
+            if bad:
+                return k, where + bad
+        for name, n in (('ABD', 6), ('ABDE', 8)):
+            if m[name] is None:
+                continue
+            if np.shape(g[name]) != (n, n):
+                return k, where + '%s has shape %r' % (name, np.shape(g[name]))
+            gm = np.asarray(g[name])
+            blocks = [('A', range(0, 3), range(0, 3)), ('B', range(0, 3), range(3, 6)), ('B', range(3, 6), range(0, 3)),
+                      ('D', range(3, 6), range(3, 6))]
+            if n == 8:
+                blocks += [('E', range(6, 8), range(6, 8)), ('0', range(0, 6), range(6, 8)), ('0', range(6, 8), range(0, 6))]
+            for bn, rows, cols in blocks:
+                want = sub(m[name], n, rows, cols)
+                bad = cmp_block('%s[%s block rows %d.. cols %d..]' % (name, bn, rows[0], cols[0]),
+                                gm[np.ix_(list(rows), list(cols))], want, max(mx(want), fl.get(bn, 0.)))
+                if bad:
+                    return k, where + bad
+        for name, key in (('A_general', 'A'), ('B_general', 'B'), ('D_general', 'D')):
+            if m[name] is not None:
+                bad = cmp_block(name + '[0:3,0:3]', np.asarray(g[name])[:3, :3], sub(m[name], 5, range(3), range(3)),
+                                max(mx(sub(m[name], 5, range(3), range(3))), fl[key]))
+                bad = bad or cmp_block(name + '[3:5,3:5]', np.asarray(g[name])[3:, 3:], sub(m[name], 5, range(3, 5), range(3, 5)),
+                                       max(mx(sub(m[name], 5, range(3, 5), range(3, 5))), fl[key]))
+                bad = bad or cmp_block(name + ' off-diagonal blocks', np.asarray(g[name])[:3, 3:], sub(m[name], 5, range(3), range(3, 5)), 0.)
+                bad = bad or cmp_block(name + ' off-diagonal blocks', np.asarray(g[name])[3:, :3], sub(m[name], 5, range(3, 5), range(3)), 0.)
+                if bad:
+                    return k, where + bad
+    return None
+
+
+def mat_line(prop):
+    return 'C01 mat ' + ' '.join(q(v) for v in prop)
+
+
+def compare_mat(prop, reply):
+    """MatLamina.rebuild: c, q.., u"""
+    import warnings
+    from compmech.composite.matlamina import read_laminaprop
+    with warnings.catch_warnings():
+        warnings.simplefilter('ignore')
+        m = read_laminaprop(tuple(prop))
+    tok = reply.split()
+    if tok[0] != 'ok':
+        return 'model: ' + reply
+    v = [unq(x) for x in tok[1:]]
+    c, qq, u = v[:9], v[9:21], v[21:]
+    ci = [m.c[0, 0], m.c[0, 1], m.c[0, 2], m.c[1, 1], m.c[1, 2], m.c[2, 2], m.c[3, 3], m.c[4, 4], m.c[5, 5]]
+    qi = [m.q11, m.q12, m.q13, m.q21, m.q22, m.q23, m.q31, m.q32, m.q33, m.q44, m.q55, m.q66]
+    sc = max(abs(float(x)) for x in c + qq)
+    # c and q.. pass through 1/delta resp. 1/den (one rounding of a difference of O(1) numbers): relative 1e-12 of the scale
+    # is kept for u (the task's tolerance); c and q are conditioned by den, so they get 1e-10
+    bad = cmp_block('matobj.c', ci, c, sc, 1e-10) or cmp_block('matobj.q..', [float(x) for x in qi], qq, sc, 1e-10)
+    bad = bad or cmp_block('matobj.u', m.u, u, max(abs(float(x)) for x in u), 1e-10)
+    if not bad and np.count_nonzero(m.c) > 12:
+        bad = 'matobj.c has entries outside the orthotropic pattern'
+    return bad
+
+
+# ----------------------------------------------------------------------------- implementation predicates for the lamination-parameter route
+def lp_route_checks(rng):
+    """C01 evaluated on the implementation for the lamination-parameter route, independent of the model: a laminate
+    described by the lamination parameters of a real single-material stack must report that stack's A, B, D, E.
+    Returns a list of (identity or None, text, replay)."""
+    import warnings
+    from compmech.composite.laminate import read_stack, read_lamination_parameters
+    from compmech.composite.matlamina import read_laminaprop
+    out = []
+    n = rng.choice([1, 2, 3, 4, 6])
+    angs = [rng.choice([0, 45, -45, 90, 30, -60, rng.uniform(-90, 90)]) for _ in range(n)]
+    ts = [rng.choice([0.125, 0.25, rng.uniform(0.1, 0.3)]) for _ in range(n)]
+    planar = rng.random() < 0.5
+    prop = gen_planar_prop(rng) if planar else gen_prop(rng)
+    if rng.random() < 0.3 and len(prop) >= 6:
+        prop = tuple(prop[:4]) + (prop[4], prop[4]) + tuple(prop[6:])          # g13 = g23
+    m = read_laminaprop(tuple(prop))
+    planar = (m.nu31 == 0 and m.nu32 == 0)
+    offset = 0. if rng.random() < 0.6 else rng.choice([-1, 1]) * rng.uniform(0.1, 1) * sum(ts)
+    desc = dict(stack=angs, plyts=ts, laminaprop=list(prop), offset=offset)
+    with warnings.catch_warnings(), np.errstate(all='ignore'):
+        warnings.simplefilter('ignore')
+        ref = read_stack(list(angs), plyts=list(ts), laminaprop=prop, offset=offset)
+        T = ref.t
+        sA = float(np.abs(ref.A).max())
+        L = T / 2. + abs(offset)
+        S = dict(A=sA, B=sA * L, D=sA * L * L, E=float(np.abs(ref.E).max()))
+        want = dict(A=np.array(ref.A), B=np.array(ref.B), D=np.array(ref.D), E=np.array(ref.E))
+
+        # (1) the object's own route, exactly as the package leaves the plies
+        lam = read_stack(list(angs), plyts=list(ts), laminaprop=prop, offset=offset)
+        lam.matobj = lam.plies[0].matobj
+        try:
+            lam.calc_lamination_parameters()
+            ran = True
+        except AttributeError as e:
+            ran = False
+            out.append(('C01-lp-ply-trig-attributes-missing',
+                        'calc_lamination_parameters() raises AttributeError (%s) on a laminate read by read_stack: no lamination '
+                        'parameters, hence no LP matrices, can be obtained from a stack' % e, dict(lp_route=desc, step='clp')))
+        # (2) the same with the four attributes supplied by the caller
+        for ply, a in zip(lam.plies, angs):
+            ply.cos2t, ply.sin2t, ply.cos4t, ply.sin4t = trig_of(a)
+        lam.calc_lamination_parameters()
+        lam.calc_ABDE_from_lamination_parameters()
+        routes = [('calc_lamination_parameters + calc_ABDE_from_lamination_parameters (ply attributes set by the caller)', lam, offset)]
+        # (3) read_lamination_parameters with the parameters of the stack (it has no offset argument: only for offset 0)
+        if offset == 0.:
+            lam2 = read_lamination_parameters(T, prop, *xis_of_stack(angs, ts))
+            routes.append(('read_lamination_parameters(t, laminaprop, parameters of the stack)', lam2, 0.))
+        u1 = m.u[0, 0]
+        u4 = m.u[2, 0]
+        u5 = m.u[6, 0]
+        G0 = np.array([[u1, u4, 0], [u4, u1, 0], [0, 0, u5]])
+        for rname, lm, off in routes:
+            for key in 'ABDE':
+                got = np.asarray(getattr(lm, key), dtype=float)
+                if np.abs(got - want[key]).max() <= 1e-9 * S[key]:
+                    continue
+                ident = None
+                why = ''
+                if key == 'E':
+                    if np.abs(got - want['E'][::-1, ::-1]).max() <= 1e-9 * S['E']:
+                        ident = 'C01-lp-E-order-swapped'
+                        why = ' (it is the stack\'s E with the two shear directions exchanged: [[E55, E45], [E45, E44]])'
+                elif not planar:
+                    ident = 'C01-lp-invariants-from-3d-stiffness'
+                    why = ' (matobj.u is built from the 3-D stiffnesses c_ij, nu13 = %g, nu23 = %g, not from the plane-stress Q_ij)' % (m.nu13, m.nu23)
+                elif off != 0. and key in 'BD':
+                    miss = off * T * G0 if key == 'B' else off * off * T * G0
+                    if np.abs(got + miss - want[key]).max() <= 1e-9 * S[key]:
+                        ident = 'C01-lp-offset-ignored-in-constant-term'
+                        why = ' (xiB[0] = 0 and xiD[0] = 1 are hard-coded: the isotropic part d*t*Gamma0 resp. d^2*t*Gamma0 is missing)'
+                out.append((ident, '%s: %s differs from the through-thickness integral of the stack it describes '
+                            '(max diff %.3e, scale %.3e)%s' % (rname, key, np.abs(got - want[key]).max(), S[key], why),
+                            dict(lp_route=desc, route=rname, matrix=key)))
+    return out
+
+
+def seq_nontrivial(sq):
+    ops = [st[0] for st in sq['steps']]
+    return sq['ctor']['kind'] != 'fresh' and len(set(ops) & set(METHODS)) >= 2
+
+
+def object_stream(ctx):
+    """correspondence of the object model + the LP-route predicates; returns False after a recorded violation"""
+    rng = ctx.rng
+    n = ctx.scale(220, 4000)
+    seqs = [gen_seq(rng) for _ in range(n)]
+    props = [gen_prop(rng) for _ in range(ctx.scale(30, 300))]
+    lines = [seq_line(s) for s in seqs] + [mat_line(p) for p in props]
+    replies = driver(lines)
+    assert len(replies) == len(lines), (len(replies), len(lines))
+    dist = dict(ctor={}, ops={}, errors={}, stages=0, offset_nonzero=0, mixed_material=0)
+    for sq, line, rep in zip(seqs, lines, replies):
+        ctx.evaluations += 1
+        k = sq['ctor']['kind']
+        dist['ctor'][k] = dist['ctor'].get(k, 0) + 1
+        if k == 'stack':
+            dist['offset_nonzero'] += sq['ctor']['case']['offset'] != 0
+            dist['mixed_material'] += bool(sq['ctor']['case']['laminaprops'])
+        for st in sq['steps']:
+            dist['ops'][st[0]] = dist['ops'].get(st[0], 0) + 1
+        for part in rep.split(' # '):
+            if part.startswith('err '):
+                e = part.split(' ;')[0]
+                dist['errors'][e] = dist['errors'].get(e, 0) + 1
+        dist['stages'] += rep.count(' # ') + 1
+        if seq_nontrivial(sq):
+            ctx.nontrivial.add(line)
+        ctx.sample(dict(sequence=sq, model_reply=rep[:160]), limit=5)
+        bad = compare_seq(sq, rep)
+        if bad:
+            stage, text = bad
+            ctx.violation('C01 object model/implementation disagreement: the Laminate object differs from Model/LaminationParams.lean '
+                          + text, dict(sequence=sq, stage=stage, correspondence='Model/LaminationParams.lean vs compmech/composite/laminate.py'))
+            return False
+    for p, rep in zip(props, replies[len(seqs):]):
+        ctx.evaluations += 1
+        bad = compare_mat(p, rep)
+        if bad:
+            ctx.violation('MatLamina.rebuild differs from Model/LaminationParams.lean: ' + bad, dict(laminaprop=list(p)))
+            return False
+    hits = {}
+    for _ in range(ctx.scale(40, 600)):
+        ctx.evaluations += 1
+        for ident, text, rp in lp_route_checks(rng):
+            hits[ident] = hits.get(ident, 0) + 1
+            if ctx.violation('C01 fails on the implementation: ' + text, rp, identity=ident):
+                return False
+    dist['lp_route_findings_hit'] = {str(k): v for k, v in hits.items()}
+    ctx.cov['object_stream'] = dist
+    return True
